@@ -311,8 +311,16 @@ func addArFile(w *ar.Writer, name string, body []byte, date time.Time) error {
 	if err := w.WriteHeader(&header); err != nil {
 		return fmt.Errorf("cannot write file header: %w", err)
 	}
-	_, err := w.Write(body)
-	return err
+	n, err := w.Write(body)
+	if err != nil {
+		return err
+	}
+	// the ar writer pads odd sized members to an even length but does not
+	// report a failure to write the padding byte other than through n
+	if want := len(body) + len(body)%2; n != want {
+		return fmt.Errorf("wrote %d of %d bytes: %w", n, want, io.ErrShortWrite)
+	}
+	return nil
 }
 
 type nopCloser struct {
